@@ -115,6 +115,7 @@ type CallSite struct {
 	pre    *State // state before call
 	block  *ssa.BasicBlock
 	encoded bool
+	depth  int // 0 = the function under verification; >0 = inside an inlined callee
 }
 
 // Frame is one function activation (top-level or inlined).
